@@ -360,7 +360,7 @@ def callee_writes_arg(prog, fn, callee, apos):
 
 
 # ---------------------------------------------------------------------- engine
-def forward_must(g, init, transfer, edge=None):
+def forward_must(g, init, transfer, edge=None, follow=None):
     """Forward must-analysis over XCFG `g`.  States are frozensets; join is
     intersection.  transfer(node, in) -> out; edge(node, label, succ, out) ->
     state along that edge.  Returns {node: in-state} (None = unreachable)."""
@@ -375,9 +375,16 @@ def forward_must(g, init, transfer, edge=None):
         s = IN[n]
         out = transfer(n, s)
         for m, label in n.succ:
+            if follow is not None and not follow(n, m, label):
+                continue
             v = edge(n, label, m, out) if edge else out
             cur = IN[m]
             if cur is None:
+                IN[m] = v
+                changed = True
+            elif v is UNIVERSE:
+                changed = False
+            elif cur is UNIVERSE:
                 IN[m] = v
                 changed = True
             else:
@@ -394,18 +401,32 @@ def forward_must(g, init, transfer, edge=None):
     return IN
 
 
+class _Universe(frozenset):
+    """state of a path on which a THROW has already been executed (the error
+    is reported): every fact holds vacuously; identity of the join"""
+
+    def __repr__(self):
+        return "UNIVERSE"
+
+
+UNIVERSE = _Universe()
+
+
 class Facts:
     """Standard FACTS analysis: branch atoms, killed by writes to their
     variables; rules may add event facts through `gen`."""
 
-    def __init__(self, prog, g, gen=None, extra_kill=None, init=()):
+    def __init__(self, prog, g, gen=None, extra_kill=None, init=(), edge_gen=None, mark_thrown=True, follow=None):
         self.prog = prog
         self.g = g
         self.fn = g.fn
         self.gen = gen
         self.extra_kill = extra_kill
+        self.edge_gen = edge_gen
+        self.mark_thrown = mark_thrown
         self._wcache = {}
-        self.IN = forward_must(g, init, self._transfer, self._edge)
+        self.follow = follow
+        self.IN = forward_must(g, init, self._transfer, self._edge, follow)
 
     def writes(self, node):
         w = self._wcache.get(node.id)
@@ -418,6 +439,10 @@ class Facts:
         return w
 
     def _transfer(self, node, s):
+        if s is UNIVERSE:
+            return s
+        if node.kind == "throw" and self.mark_thrown:
+            return UNIVERSE
         if node.kind != "el":
             return s
         w = self.writes(node)
@@ -432,20 +457,52 @@ class Facts:
         return s
 
     def _edge(self, node, label, succ, s):
+        if s is UNIVERSE:
+            return s
         if node.kind == "br" and label in ("T", "F"):
             t = node.info.get("term")
             if t and t.get("c") is not None:
                 atoms = cond_atoms(self.fn, t["c"], label == "T")
                 if atoms:
+                    if self.edge_gen:
+                        atoms = list(atoms) + list(self.edge_gen(node, label, atoms) or ())
                     return s | frozenset(atoms)
         elif node.kind == "br" and isinstance(label, tuple) and label[0] == "case":
             t = node.info.get("term")
             if t and t.get("c") is not None and isinstance(label[1], int):
-                return s | frozenset([("cmp", key(self.fn, t["c"]), "==", label[1])])
+                atoms = [("cmp", key(self.fn, t["c"]), "==", label[1])]
+                if self.edge_gen:
+                    atoms = atoms + list(self.edge_gen(node, label, atoms) or ())
+                return s | frozenset(atoms)
         return s
 
     def at(self, node):
         return self.IN.get(node)
+
+
+def world_follow(fn, varkey, w):
+    """edge filter: only edges consistent with the integer variable `varkey`
+    having the concrete value w (conditions on other things are not decided)"""
+    def follow(n, m, label):
+        if n.kind != "br":
+            return True
+        t = n.info.get("term")
+        if not t or t.get("c") is None:
+            return True
+        if label in ("T", "F"):
+            for a in cond_atoms(fn, t["c"], label == "T"):
+                if a[0] == "cmp" and a[1] == varkey:
+                    k = a[3]
+                    if not {"==": w == k, "!=": w != k, "<": w < k, "<=": w <= k, ">": w > k, ">=": w >= k}[a[2]]:
+                        return False
+            return True
+        if isinstance(label, tuple) and key(fn, t["c"]) == varkey:
+            if label[0] == "case":
+                return label[1] == w
+            cases = [l[1] for _, l in n.succ if isinstance(l, tuple) and l[0] == "case"]
+            return w not in cases
+        return True
+    return follow
 
 
 def reachable_from(g, starts, follow=lambda n, m, label: True):
@@ -458,3 +515,101 @@ def reachable_from(g, starts, follow=lambda n, m, label: True):
                 seen.add(m)
                 work.append(m)
     return seen
+
+
+# ---------------------------------------------------------------------- small constant-set analysis
+TOPV = "T"
+
+
+def const_sets(g, track=None):
+    """forward may-analysis of the sets of integer constants local scalar
+    variables can hold.  Returns {node: {var: frozenset|TOPV}} (IN states).
+    Variables never assigned on a path are absent."""
+    fn = g.fn
+
+    def ev(e, st):
+        e = ir.strip_casts(fn.resolve(e))
+        if not isinstance(e, list) or not e:
+            return TOPV
+        t = e[0]
+        if t == "i" and isinstance(e[1], int):
+            return frozenset([e[1]])
+        if t == "v":
+            return st.get(e[1], TOPV)
+        if t == "b" and e[1] in ("+", "-", "*"):
+            a, b = ev(e[2], st), ev(e[3], st)
+            if a == TOPV or b == TOPV:
+                return TOPV
+            out = set()
+            for x in a:
+                for y in b:
+                    out.add(x + y if e[1] == "+" else x - y if e[1] == "-" else x * y)
+            return frozenset(out) if len(out) <= 16 else TOPV
+        if t == "?" and len(e) == 4:
+            a, b = ev(e[2], st), ev(e[3], st)
+            if a == TOPV or b == TOPV:
+                return TOPV
+            return a | b
+        return TOPV
+
+    def join(a, b):
+        out = {}
+        for k in set(a) | set(b):
+            x, y = a.get(k), b.get(k)
+            if x is None:
+                out[k] = y
+            elif y is None:
+                out[k] = x
+            elif x == TOPV or y == TOPV:
+                out[k] = TOPV
+            else:
+                u = x | y
+                out[k] = u if len(u) <= 16 else TOPV
+        return out
+
+    def transfer(n, st):
+        if n.kind != "el":
+            return st
+        e = n.el.e
+        t = e[0]
+        if t == "d":
+            if e[2] is None:
+                return st
+            st = dict(st)
+            st[e[1]] = ev(e[2], st)
+            return st
+        if t == "=" and e[1][0] == "v":
+            st = dict(st)
+            st[e[1][1]] = ev(e[2], st)
+            return st
+        if t == "o=" and e[2][0] == "v" and e[1] in ("+=", "-=", "*="):
+            st = dict(st)
+            st[e[2][1]] = ev(["b", e[1][0], e[2], e[3]], st)
+            return st
+        if t == "u" and e[1] in ("++", "--", "p++", "p--") and e[2][0] == "v":
+            st = dict(st)
+            st[e[2][1]] = ev(["b", "+" if "+" in e[1] else "-", e[2], ["i", 1]], st)
+            return st
+        # any other write (address taken, passed to a callee) makes the variable unknown
+        for n2 in ir.walk(fn, e):
+            if n2[0] == "u" and n2[1] == "&" and n2[2][0] == "v":
+                st = dict(st)
+                st[n2[2][1]] = TOPV
+        return st
+
+    IN = {g.entry: {}}
+    work = deque([g.entry])
+    steps = 0
+    while work:
+        n = work.popleft()
+        out = transfer(n, IN[n])
+        for m, label in n.succ:
+            cur = IN.get(m)
+            new = out if cur is None else join(cur, out)
+            if cur is None or new != cur:
+                IN[m] = new
+                work.append(m)
+        steps += 1
+        if steps > 400000:
+            break
+    return IN, ev
